@@ -221,13 +221,20 @@ fn run_generate(
         }
         true
     } else {
-        GenerationCache::needs_regeneration(
+        GenerationCache::needs_regeneration_with_events(
             &config.output_path,
             &commands,
             discovered_structs,
+            analyzer.get_discovered_events(),
             &config,
         )
         .unwrap_or(true) // On error, assume regeneration is needed
+            // A generated file that has gone missing has to be written again
+            || !GenerationCache::outputs_present(
+                &config.output_path,
+                !analyzer.get_discovered_events().is_empty(),
+                config.should_visualize_deps(),
+            )
     };
 
     if !needs_regeneration {
@@ -273,7 +280,12 @@ fn run_generate(
     }
 
     // Save cache after successful generation
-    let cache = GenerationCache::new(&commands, discovered_structs, &config)?;
+    let cache = GenerationCache::new_with_events(
+        &commands,
+        discovered_structs,
+        analyzer.get_discovered_events(),
+        &config,
+    )?;
     if let Err(e) = cache.save(&config.output_path) {
         eprintln!("Warning: Failed to save generation cache: {}", e);
     }
